@@ -1,9 +1,167 @@
-//! C07, 128-bit specialisation (ecm128::M128 through the verif hook).  Filled in once the hook is merged.
-use crate::engine::{Ctx, Fail};
+//! C07, 128-bit specialisation: ecm128's private Montgomery type `M128` through the
+//! `ecm128::verif` hook, against the reference and against ZmodN (raw residues must be
+//! interchangeable: R = 2^64 for n < 2^64, R = 2^128 otherwise).
+
+use proptest::prelude::*;
+use serde::{Deserialize, Serialize};
 use serde_json::Value;
 
-pub fn run(_ctx: &Ctx) {}
+use crate::engine::{guard, replay_as, Ctx, Fail, Local};
+use crate::gen::edgy128;
+use crate::oracle::int::{ref_invmod, Ref};
+use yamaquasi::arith_montgomery::{MInt, ZmodN};
+use yamaquasi::ecm128::verif as m;
+use yamaquasi::Uint;
 
-pub fn replay(_case: &Value) -> Result<(), Fail> {
-    Err(Fail::new("HARNESS|unknown-check", "m128 check not built yet"))
+#[derive(Clone, Debug, Serialize, Deserialize)]
+pub struct M128Case {
+    #[serde(with = "crate::ser::u128s")]
+    pub n: u128,
+    #[serde(with = "crate::ser::u128s")]
+    pub x: u128,
+    #[serde(with = "crate::ser::u128s")]
+    pub y: u128,
+}
+
+pub fn strategy() -> impl Strategy<Value = M128Case> {
+    (edgy128(), edgy128(), edgy128(), 0u8..10, 0u8..10, 0u8..6).prop_map(|(n, x, y, sx, sy, sn)| {
+        let n = match sn {
+            // within 2^10 of 2^64 and 2^128
+            0 => (1u128 << 64) - 1 - ((n as u64 % 1024) as u128 & !1),
+            1 => (1u128 << 64) + 1 + ((n as u64 % 1024) as u128 & !1),
+            2 => u128::MAX - ((n as u64 % 1024) as u128 & !1),
+            3 => (1u128 << 127) + 1 + ((n as u64 % 1024) as u128 & !1),
+            _ => n | 1,
+        };
+        let n = if n < 3 { 3 } else { n | 1 };
+        let sp = |s: u8, v: u128| -> u128 {
+            match s {
+                0 => 0,
+                1 => 1,
+                2 => n - 1,
+                3 => n - 2,
+                4 => n / 2,
+                5 => (n / 2) + 1,
+                6 => crate::oracle::int::isqrt_u128(n) % n,
+                _ => v % n,
+            }
+        };
+        M128Case { n, x: sp(sx, x), y: sp(sy, y) }
+    })
+}
+
+fn mint_u128(m: &MInt) -> Option<u128> {
+    if m.0[2..].iter().any(|&w| w != 0) {
+        return None;
+    }
+    Some(m.0[0] as u128 | ((m.0[1] as u128) << 64))
+}
+
+pub fn check(c: &M128Case, l: &mut Local) -> Result<(), Fail> {
+    let n = c.n;
+    if n & 1 == 0 || n < 3 || c.x >= n || c.y >= n {
+        return Err(Fail::new("HARNESS|out-of-domain", "m128 case outside the domain"));
+    }
+    l.case();
+    let small = n >> 64 == 0;
+    l.label(if small { "m128:n<2^64(R=2^64)" } else { "m128:n>=2^64(R=2^128)" });
+    let nr = Ref::from(n);
+    let r = if small { Ref::ONE << 64 } else { Ref::ONE << 128 };
+    let rmod = r % nr;
+    let rinv = ref_invmod(&rmod, &nr).expect("R invertible");
+    let ctx = guard("M128::new", || m::m128_new(n))?;
+    // constants
+    ensure!(Ref::from(ctx.r) == rmod, "M128|r-constant", "n={}: r = {} expected R mod n = {}", n, ctx.r, rmod);
+    ensure!(
+        Ref::from(ctx.r2) == (rmod * rmod) % nr,
+        "M128|r2-constant",
+        "n={}: r2 = {} expected R^2 mod n",
+        n,
+        ctx.r2
+    );
+    let xm = guard("M128::to_mont", || m::to_mont(&ctx, c.x))?;
+    let ym = guard("M128::to_mont", || m::to_mont(&ctx, c.y))?;
+    ensure!(
+        Ref::from(xm) == (Ref::from(c.x) * rmod) % nr,
+        "M128::to_mont|wrong-residue",
+        "n={} x={}: residue {} expected {}",
+        n,
+        c.x,
+        xm,
+        (Ref::from(c.x) * rmod) % nr
+    );
+    let back = guard("M128::from_mont", || m::from_mont(&ctx, xm))?;
+    ensure!(back == c.x, "M128::from_mont|round-trip", "n={} x={}: round trip gives {}", n, c.x, back);
+    // operations on residues
+    let pm = guard("M128::mul", || m::mul(&ctx, xm, ym))?;
+    let expect = (Ref::from(xm) * Ref::from(ym) % nr) * rinv % nr;
+    ensure!(
+        Ref::from(pm) == expect,
+        "M128::mul|wrong-value",
+        "n={} xR={} yR={}: mul = {} expected {}",
+        n,
+        xm,
+        ym,
+        pm,
+        expect
+    );
+    let am = guard("M128::add", || m::add(&ctx, xm, ym))?;
+    ensure!(
+        Ref::from(am) == (Ref::from(xm) + Ref::from(ym)) % nr,
+        "M128::add|wrong-value",
+        "n={} a={} b={}: add = {}",
+        n,
+        xm,
+        ym,
+        am
+    );
+    let sm = guard("M128::sub", || m::sub(&ctx, xm, ym))?;
+    ensure!(
+        Ref::from(sm) == (Ref::from(xm) + nr - Ref::from(ym)) % nr,
+        "M128::sub|wrong-value",
+        "n={} a={} b={}: sub = {}",
+        n,
+        xm,
+        ym,
+        sm
+    );
+    if n > (1 << 66) && c.x > n / 4 && c.y > n / 4 {
+        l.nontrivial_of(&(n, c.x, c.y));
+        l.sample("m128", || serde_json::to_value(c).unwrap());
+    }
+    // same representation as ZmodN
+    let zn = guard("ZmodN::new", || ZmodN::new(Uint::from(n)))?;
+    let zx = guard("ZmodN::from_int", || zn.from_int(Uint::from(c.x)))?;
+    let zy = guard("ZmodN::from_int", || zn.from_int(Uint::from(c.y)))?;
+    ensure!(
+        mint_u128(&zx) == Some(xm),
+        "M128|representation-differs-from-ZmodN",
+        "n={} x={}: M128 residue {} ZmodN residue {:?}",
+        n,
+        c.x,
+        xm,
+        zx.0
+    );
+    let zp = guard("ZmodN::mul", || zn.mul(zx, zy))?;
+    ensure!(
+        mint_u128(&zp) == Some(pm),
+        "M128::mul|differs-from-ZmodN",
+        "n={} x={} y={}: M128 {} ZmodN {:?}",
+        n,
+        c.x,
+        c.y,
+        pm,
+        zp.0
+    );
+    Ok(())
+}
+
+pub fn run(ctx: &Ctx) {
+    ctx.par_prop("m128", 16, ctx.n(300_000, 40_000_000), strategy, check);
+    ctx.essential("m128:n<2^64(R=2^64)", 100);
+    ctx.essential("m128:n>=2^64(R=2^128)", 100);
+}
+
+pub fn replay(case: &Value) -> Result<(), Fail> {
+    replay_as::<M128Case>(case, check)
 }
